@@ -49,7 +49,7 @@ T0 = 100          # ms: the request is issued
 PRE_AT = 50       # ms: loss while idle
 GAP = 15000       # ms between the end of the first request and the follow-up request
 DELTAS = [70, 0, None]
-RESTARTS = [0, 300, 3000, 12000]
+RESTARTS = [0, 300, 3000, 12000]  # the seeded part adds 137, 999, 4321, 6500, 8000, 9400, 13000
 TMOS = [None, 500, 5000]
 KINDS = ["eof", "reset", "silence"]
 
@@ -273,8 +273,8 @@ def complete_replies(case):
     return out
 
 
-def spec_check(case, obs):
-    """-> list of (clause, text)"""
+def spec_check(case, obs, model_obs=None):
+    """-> list of (clause, text); `model_obs`: what the Lean model (for which `recover` is proved) gives on the same case"""
     v = []
     f = obs.split(" ")
     ack = LW.ACK_MS[case["tr"]]
@@ -331,6 +331,15 @@ def spec_check(case, obs):
     if case["mr"] >= 1 and kind in ("eof", "reset") and case["restart"] == 0 and first_attempt_sees_loss \
             and not o1.startswith("reply:62f190"):
         v.append(("no-recovery", f"peer accepts again at once, max_retry={case['mr']}, but the request itself gives {o1}"))
+    # ... in general: whenever the recovery theorem applies (the loss surfaces as a connection error / end-of-stream - which includes a
+    # peer that goes silent before the DoIP / HSFZ acknowledgement -, at least one retry, the peer accepting again inside the reconnect
+    # window), the proved model returns the restarted peer's reply for the request itself; so must the implementation
+    if model_obs is not None and case["mr"] >= 1 and not v:
+        m1 = model_obs.split(" ")[0]
+        if m1.startswith("reply:62f190") and m1 != "reply:" + LW.final(0).hex() and not o1.startswith("reply:62f190"):
+            v.append(("no-recovery", f"the loss surfaces as a connection error, max_retry={case['mr']} and the peer accepts again {case['restart']} ms after "
+                                     f"the loss - inside the reconnect window -, so the request is implied to return the restarted peer's reply "
+                                     f"{m1[6:]} through one reconnect; it gives {o1}"))
     return v
 
 
@@ -387,7 +396,7 @@ def gen_cases(ctx):
         delta = rng.choice([0, 7, 33, 70, 123, 277, 451]) if (kind == "silence" or rng.random() < 0.9) else None
         cut = 0 if delta is None else rng.choice(all_cuts(tr, script))
         base = dict(tr=tr, script=script, cut=cut, kind=kind, delta=delta,
-                    restart=rng.choice([0, 137, 300, 999, 3000, 4321, 8000, 12000, 13000]),
+                    restart=rng.choice([0, 137, 300, 999, 2000, 3000, 4321, 6500, 8000, 9400, 12000, 13000]),
                     tmo=rng.choice([None, 300, 500, 1200, 5000]))
         if rng.random() < 0.3:
             cases.append(dict(base, level="T"))
@@ -422,11 +431,11 @@ def compare(ctx, cases, impl, model):
             ctx.kind("followup:" + (a.split(" ") + ["?", "?", "?"])[2].split(":")[0], f"max_retry:{c['mr']}")
         ctx.nontrivial(case_key(c))
         ctx.traces_validated += 1
-        for clause, text in spec_check(c, a):
+        for clause, text in spec_check(c, a, b):
             k = f"c08:{clause}:{class_of(c)}"
             if k not in viol or small(c) < small(viol[k][0]):
                 viol[k] = (c, a, b, clause, text)
-        if a != b and not spec_check(c, a):
+        if a != b and not spec_check(c, a, b):
             fa, fb = a.split(" "), b.split(" ")
             names = (["result", "t_end", "close", "reconnect", "t_reconnect", "conns"] if c["level"] == "T"
                      else ["out1", "t1", "out2", "t2", "conns", "sent"])
@@ -494,7 +503,7 @@ def _replay_one(ctx, c):
     print("prefix:", stream_of(c)[: c["cut"]].hex() or "-", f"({where(c)})")
     print("impl  :", a)
     print("model :", b)
-    v = spec_check(c, a)
+    v = spec_check(c, a, b)
     for clause, text in v:
         print(f"property clause violated by the implementation: {clause}: {text}")
     return 1 if (v or a != b) else 0
